@@ -156,6 +156,34 @@ fn hexwrite_canon(img: &[u8]) -> String {
     r.unwrap_or_else(|_| "PANIC".to_string())
 }
 
+/// build, then hand the result to the library's two file writers (what the command-line tool
+/// does after a successful build); only the sizes are reported
+fn buildwrite_canon(src: &str) -> String {
+    let r = catch_unwind(AssertUnwindSafe(|| match build_str(src) {
+        Err(_) => "ERR".to_string(),
+        Ok(br) => {
+            let dir = scratch_dir();
+            let pc = dir.join("w.hex");
+            let pe = dir.join("w.eep.hex");
+            let rc = avra_lib::writer::write_code_hex(pc.clone(), &br);
+            let re = avra_lib::writer::write_eeprom_hex(pe.clone(), &br);
+            let len = |p: &PathBuf| std::fs::metadata(p).map(|m| m.len()).unwrap_or(0);
+            let out = format!(
+                "OK code={} ee={} wcode={} wee={} codefile={} eefile={}",
+                br.code.len(),
+                br.eeprom.len(),
+                if rc.is_ok() { "ok" } else { "err" },
+                if re.is_ok() { "ok" } else { "err" },
+                len(&pc),
+                len(&pe)
+            );
+            let _ = std::fs::remove_dir_all(&dir);
+            out
+        }
+    }));
+    r.unwrap_or_else(|_| "PANIC".to_string())
+}
+
 fn file_canon(rest: &str) -> String {
     let mut it = rest.split(' ');
     let main = unhex_str(it.next().unwrap_or("-"));
@@ -178,6 +206,7 @@ pub fn dispatch(kind: &str, rest: &str) -> String {
         "X" => expr_canon(&unhex_str(rest)),
         "H" => hexwrite_canon(&if rest == "-" { vec![] } else { unhex(rest) }),
         "F" => file_canon(rest),
+        "W" => buildwrite_canon(&unhex_str(rest)),
         "S" => {
             // history: several sources, built one after another in this thread
             let mut outs = vec![];
